@@ -6,7 +6,7 @@ from ..core import Case, TOL, finite
 from .common import qtol
 
 RULE = ("opinions on dyadic grids (den 4..64, zero beliefs / zero base rates / vacuous / dogmatic / absolute mixed in), "
-        "random representable floats and an uncertainty sweep; sizes 1..4 and 2-D domains; every container family and "
+        "random representable floats and an uncertainty sweep; sizes 1..5, 7 and 2-D domains; every container family and "
         "call style, f32 and f64; a case is non-trivial unless the opinion is vacuous; distinct = distinct "
         "(operator, type, size, operand bits)")
 ASSUMPTIONS = ["base-rate entries are 0 or > machine epsilon (entries in (0, eps] are covered by the tolerance version only)"]
@@ -23,9 +23,9 @@ def gen(rng, tier):
     out = []
     nrand = 60 if tier == "quick" else 1500
     for ty in ("f64", "f32"):
-        for n in (1, 2, 3, 4):
+        for n in (1, 2, 3, 4, 5, 7):
             ops = []
-            for i in range(nrand):
+            for i in range(nrand if n <= 4 else max(10, nrand // 3)):
                 den = rng.choice([4, 8, 16, 64])
                 ops.append(("grid", G.grid_opinion(rng, n, den)))
             for i in range(nrand // 2):
